@@ -16,6 +16,8 @@ TNext ==
   /\ l <= Len(Rec) /\ l' = l + 1
   /\ LET e == Rec[l] IN
        IF e.t = "verify" THEN viol' = viol \cup Checks(e) /\ nsteps' = nsteps + 1
+       \* the same valid vote (timeout) delivered three times plus one other member's stays below the quorum of distinct signers
+       ELSE IF e.t = "replay" THEN viol' = viol \cup (IF e.counted THEN {<<"C04.ReplayedMessageCountsOnce", l>>} ELSE {}) /\ nsteps' = nsteps + 1
        ELSE UNCHANGED <<viol, nsteps>>
 TSpec == TInit /\ [][TNext]_tvars
 Accepted ==
